@@ -197,6 +197,11 @@ Theorem C05_forced_no_session_without_tls : forall T c h,
 Proof. intros T c h Hf Ht. exact (rejected_no_session T c h (forced_plain_client_rejected c Hf Ht)). Qed.
 Print Assumptions C05_forced_no_session_without_tls.
 
+(* quic (client Open(), server HandleQUICListener: no sniff): always under TLS, whatever tls.enable says *)
+Theorem C05_quic_always_tls : forall c, is_quic c = true -> plan c = DialErr \/ conn_tls c = true.
+Proof. exact quic_always_tls. Qed.
+Print Assumptions C05_quic_always_tls.
+
 (* ---- non-vacuity ---- *)
 Definition ex_client (tls : bool) : client_transport :=
   client_complete {| ct_protocol := ""; ct_tcp_mux := Some false; ct_tls_enable := Some tls;
